@@ -69,7 +69,7 @@ CHECKS = {
     "C10": dict(
         technique="runtime monitoring: exhaustive execution of the real inserter/adder/get-or-add/change-to/remove methods over schema-derived sibling contexts; libxml2 validation of a structure-only copy of the shipped XSDs as the postcondition oracle",
         text="All 196 registered tags x their schema types x the 328 child declarations recovered from the real classes at run time; ~3e4 sibling contexts (single other child both orders, all later, all earlier, all permitted per choice alternative, every ordering of two kinds in repeatable mixed content; all pairs in thorough), each self-checked, ~1e5 method executions validated. Exhaustive over the declared context families, not over all sibling multisets.",
-        note="Trusted: libxml2 + shipped ISO 29500-4 schemas (structure-only transformation in vlib/xsdkit.py), vlib/ctxgen.py only proposes contexts (each validated before use). Public add_x methods with required arguments and children admitted only through xsd:any are not driven (counted in evidence).",
+        note="Trusted: libxml2 + shipped ISO 29500-4 schemas (structure-only transformation in vlib/xsdkit.py), vlib/ctxgen.py only proposes contexts (each validated before use). Children admitted only through xsd:any are not driven (counted in evidence); hand-written adders that take arguments are called with arguments from a small table keyed by parameter name.",
         design="§3 C10",
     ),
     "C11": dict(
